@@ -85,6 +85,13 @@ func c06Cases() []c06Case {
 			"wrap.vuego": `<section><template include="inner.vuego"><slot>WRAP-FB</slot></template></section>`, "inner.vuego": `<p><slot>INNER-FB</slot></p>`}, d, "WRAP-FB"},
 		c06Case{"named-slot-forwarded", map[string]string{"p.vuego": `<template include="wrap.vuego"><template #head>H-{{ other }}</template></template>`,
 			"wrap.vuego": `<section><template include="inner.vuego"><template #title><slot name="head">WRAP-HEAD-FB</slot></template></template></section>`, "inner.vuego": `<h1><slot name="title">T-FB</slot></h1>`}, d, "H-OTHER"},
+		// supplied plain children that form a v-if / v-else-if / v-else chain or a v-for with its v-else: evaluated as the includer wrote them —
+		// the chain is resolved among the supplied siblings, whichever branch the data selects
+		c06Case{"supplied-chain-first-branch", map[string]string{"p.vuego": `<template include="c.vuego"><b v-if="n">ADMIN-{{ name }}</b><i v-else>GUEST-{{ name }}</i></template>`, "c.vuego": `<div>[<slot>FB</slot>]</div>`}, d, "[ADMIN-NAME]"},
+		c06Case{"supplied-chain-else-branch", map[string]string{"p.vuego": `<template include="c.vuego"><b v-if="nope">ADMIN-{{ name }}</b><i v-else>GUEST-{{ name }}</i></template>`, "c.vuego": `<div>[<slot>FB</slot>]</div>`}, d, "[GUEST-NAME]"},
+		c06Case{"supplied-chain-elseif-branch", map[string]string{"p.vuego": `<template include="c.vuego"><b v-if="nope">A</b><u v-else-if="n">B-{{ n }}</u><i v-else>C</i><s>tail</s></template>`, "c.vuego": `<div>[<slot>FB</slot>]</div>`}, d, "[B-7tail]"},
+		c06Case{"supplied-for-else-empty", map[string]string{"p.vuego": `<template include="c.vuego"><span>M</span><em v-for="t in nothing">{{ t }}</em><u v-else>no tags</u></template>`, "c.vuego": `<div>[<slot>FB</slot>]</div>`}, d, "[Mnotags]"},
+		c06Case{"supplied-chain-per-instance-in-loop", map[string]string{"p.vuego": `<ul><li v-for="row in rows"><template include="c.vuego"><b v-if="row.note">{{ row.t }}:{{ row.note }}</b><i v-else>{{ row.t }}:none</i></template></li></ul>`, "c.vuego": `<div>[<slot>FB</slot>]</div>`}, d, "[first:S][second:none][third:ok][fourth:none]"},
 		// forwarding through TWO levels: the wrapper's own <slot> stands inside an include that is itself content supplied to another include
 		c06Case{"slot-forwarded-through-nested-include", map[string]string{"p.vuego": `<template include="panel.vuego"><p>BODY-{{ name }}</p></template>`,
 			"panel.vuego": `<section><template include="card.vuego"><template include="box.vuego"><slot>PANEL-FB</slot></template></template></section>`,
